@@ -147,11 +147,13 @@ def run(prop, tier='quick', seed=0, repo='/repo', update_lock=False, verbose=Fal
     for vc in eng.vcs:
         txt, _ = solve.vc_to_smt2(vc, extra)
         tasks.append((vc.name, txt, 'both'))
+    t_gen = time.time() - t0
     results = solve.solve_all(tasks) if tasks else []
+    t_solve = time.time() - t0 - t_gen
     # ---- vacuity probes: every function has a reachable normal exit; every lemma's hypotheses are satisfiable
     vac_tasks = []
     for q, pcs in eng.reach.items():
-        for i, pc in enumerate(pcs):
+        for i, pc in enumerate(pcs[:4]):
             v = VC('%s.reach.%d' % (q.partition(':')[2], i), pc, z3.BoolVal(False), 'vacuity')
             txt, _ = solve.vc_to_smt2(v, extra)
             vac_tasks.append((v.name, txt, 'reach'))
@@ -160,6 +162,7 @@ def run(prop, tier='quick', seed=0, repo='/repo', update_lock=False, verbose=Fal
         txt, _ = solve.vc_to_smt2(v, extra)
         vac_tasks.append((v.name, txt, 'reach'))
     vac_results = solve.solve_all(vac_tasks) if vac_tasks else []
+    t_vac = time.time() - t0 - t_gen - t_solve
     vac_fail = []
     reach_ok = {}
     for name, r, info in vac_results:
@@ -310,6 +313,7 @@ def run(prop, tier='quick', seed=0, repo='/repo', update_lock=False, verbose=Fal
                         + sorted(a for a in eng.assumed),
         'backends': backends,
         'solver_seconds': round(solver_s, 2),
+        'phase_seconds': {'vc_generation': round(t_gen, 1), 'discharge_wall': round(t_solve, 1), 'vacuity_wall': round(t_vac, 1)},
         'functions_under_contract': fn_infos,
         'lemmas': [lm.name for lm in lemmas],
         'vacuity_probes': {'reachable_exits_checked': len(vac_tasks), 'vacuous': vac_fail},
